@@ -7,6 +7,7 @@
 import Gotree.Lemmas.C12Subdiv
 import Gotree.Lemmas.C12Sites
 import Gotree.Lemmas.C12Fmt
+import Gotree.Lemmas.C12RM
 
 namespace Gotree.C12
 open Gotree
@@ -1264,6 +1265,35 @@ theorem acr_random_steps (t : T) (m : List (String × String)) (algo : Algo) (st
       · simp [h1, h2, runCharRootTipPinned]
     · simp [h1]
 
+/- ## random resolution of several sites in lockstep: the resolved sets -/
+
+/-- ★ lockstep = site by site (Lemmas/C12RM.lean): at every site, the random second stage of ParsimonyAsr on the whole
+    alignment is the single-character run of that site on some stream of draws -/
+theorem asr_random_lockstep (te : T) (m : List (String × String)) (len : Nat) (algo : Algo) (st : List Nat) (j : Nat)
+    (ha : algo ≠ .none) (hj : j < len) :
+    ∃ st', (asrRAM te m len algo st).1.site j = (runAlgoR 6 (asrTipVec m j) algo te st').1 :=
+  asrRAM_site te m len algo st j ha hj
+
+/-- ★ ParsimonyAsr with random resolution, any number of sites, any draws, the three algorithms: every state left at
+    an inner node `v` of site `j` occurs there in some most parsimonious labelling of that site -/
+theorem asr_random_sets_sound (te : T) (m : List (String × String)) (len : Nat) (algo : Algo) (st : List Nat) (j : Nat)
+    (ha : algo ≠ .none) (hj : j < len)
+    (hr : rootOk te = true) (ht : tipsOk 6 (asrTipVec m j) te = true)
+    (v : List Nat) (hin : innerAt te v = true) (vec : Vec)
+    (hget : ((asrRAM te m len algo st).1.site j).get v = some vec) (s : Nat) (hs : s < 6) (hne : vec.at s ≠ 0) :
+    ∃ l : LT, fits 6 (asrTipVec m j) te l = true ∧ l.changes = minCost 6 (asrTipVec m j) te ∧ l.get v = some s := by
+  obtain ⟨st', h⟩ := asrRAM_site te m len algo st j ha hj
+  rw [h] at hget
+  cases algo with
+  | none => exact absurd rfl ha
+  | downpass => exact random_down_deltran_sound 6 _ te st' .downpass (Or.inl rfl) (by decide) hr ht v hin vec hget s hs hne
+  | deltran => exact random_down_deltran_sound 6 _ te st' .deltran (Or.inr rfl) (by decide) hr ht v hin vec hget s hs hne
+  | acctran => exact random_acctran_sound 6 _ te st' (by decide) hr ht v hin vec hget s hs hne
+
+/- the hypotheses of `asr_random_sets_sound` on the example alignment (two sites, IUPAC codes at site 0) -/
+example : (((asrRAM exTree exAln 2 .deltran [5, 7, 11]).1.site 0).get []).isSome = true ∧ innerAt exTree [] = true ∧
+    rootOk exTree = true ∧ tipsOk 6 (asrTipVec exAln 0) exTree = true ∧ tipsOk 6 (asrTipVec exAln 1) exTree = true := by decide
+
 /- ## The text left on the tree (Model/C12Fmt.lean: assignStatesToTree, assignSequencesToTree) and the driver's readers -/
 
 /-- ★ `assignSequencesToTree`, model level: for an alphabet of one-character names without braces, the comment
@@ -1346,8 +1376,18 @@ theorem dispatch_runAlgo (k : Nat) (tv : String → Vec) (t : T) (algo : Algo) :
   rw [dispatchCheck]
   cases algo <;> refine ⟨?_, ?_, ?_⟩ <;> first | rfl | decide
 
-/-- selection predicates, stored constants and counters of every pass function, in source order -/
-theorem skeletonCheck : Gen.C12.skeleton = expectedSkeleton ∧ Gen.C12.entry = expectedEntry := by decide
+set_option maxRecDepth 100000 in
+/-- selection predicates (each comparison evaluated on probes), stored constants and counters of every pass
+    function, in source order -/
+theorem skeletonCheck : skelSig Gen.C12.skeleton = skelSig expectedSkeleton ∧ entrySig Gen.C12.entry = entrySig expectedEntry := by
+  decide
+
+/-- the comparison is semantic: equivalent spellings of a predicate or of a constant are the same row, a different
+    predicate is not -/
+example : atomSig ("_", ">", "1") = atomSig ("_", ">=", "2") ∧ atomSig ("_", ">", "1") = atomSig ("1", "<", "_") ∧
+    atomSig ("_", "<", "_") = atomSig ("_", ">", "_") ∧ atomSig ("_", ":=", "0.0") = atomSig ("_", ":=", "0") ∧
+    atomSig ("_", ">=", "1") = atomSig ("_", ">", "0") ∧ atomSig ("_", ">", "1") ≠ atomSig ("_", ">=", "1") ∧
+    atomSig ("_", ">", "_") ≠ atomSig ("_", ">=", "_") := by decide
 
 /-- cmd/acr.go, cmd/asr.go: `--algo` literals → constants agree with `cliAlgoL`, compared after `strings.ToLower`;
     what the default clause does (acr: logs and returns nil; asr: sets err); flag defaults; the library call -/
